@@ -696,10 +696,10 @@ def oracle(world, calls, threads_exc, deadlock):
     # queries: only objects present at some instant during the call
     born = {}       # token -> (event index of the invocation that could create it)
     for c, i in adds:
-        born[c["op"][1]] = c["inv"]
+        born[c["op"][1]] = min(born.get(c["op"][1], c["inv"]), c["inv"])
     for c in run:
         if c["op"][0] == "upd":
-            born[c["op"][2]] = c["inv"]
+            born[c["op"][2]] = min(born.get(c["op"][2], c["inv"]), c["inv"])
     for c in run:
         if c["op"][0] != "query" or not c["atoms"]:
             continue
@@ -909,9 +909,15 @@ def run_scenario(ctx, lin, name, variant, programs, bound, max_runs, random_runs
 def sequential_cases(ctx, lin, n_cases):
     """single-threaded random histories: responses and final state of the real LDM = the specification (correspondence)"""
     kinds = list(OPS) + ["addtwin", "addtwin", "deltwin", "updtwin"]
-    for ci in range(n_cases):
-        variant = ctx.rng.choice(["Reactive", "Thread"])
-        names = [ctx.rng.choice(kinds) for _ in range(ctx.rng.randint(1, 10))]
+    fixed = [["addtwin", "addtwin", "deltwin", "query"], ["addtwin", "addtwin", "addtwin", "deltwin", "updtwin", "query", "deltwin"],
+             ["addtwin", "addtwin", "updtwin", "deltwin", "query"], ["add", "addtwin", "del1", "addtwin", "deltwin", "gc", "query"]]
+    plan = [(v, f) for f in fixed for v in ("Reactive", "Thread")]
+    for ci in range(n_cases + len(plan)):
+        if ci < len(plan):
+            variant, names = plan[ci][0], list(plan[ci][1])
+        else:
+            variant = ctx.rng.choice(["Reactive", "Thread"])
+            names = [ctx.rng.choice(kinds) for _ in range(ctx.rng.randint(1, 10))]
         # object 2 may be updated: its tokens are known before the world is built
         pre = [[OPS[n](k) for k, n in enumerate(names) if n in OPS]]
         w = World(variant, SETUP_BASE, expired_tokens(pre))
@@ -944,6 +950,8 @@ def sequential_cases(ctx, lin, n_cases):
         if err:
             ctx.property_failure("operation_raised:sequential", inp, "a single-threaded call raised", None, err)
             continue
+        for cls, detail, obs in oracle(w, w.calls, [], None):
+            ctx.property_failure(f"{cls}:sequential", inp, detail, None, obs)
         flat = ctx.model.batch([(1, encode_atoms(atoms))])[0]
         res, mfinal = decode_model(flat, len(atoms))
         pst, pres = spec_init(), []
